@@ -36,6 +36,9 @@ def corpus():
 def generate(rng, tier):
     n = 1500 if tier == 'quick' else 12000
     out = []
+    for _ in range(n // 8):
+        cells, path = c11.broadcast(rng)
+        out.append({'cells': cells, 'target': {'ref': 0}, 'path': path, 'ignore_missing': rng.random() < 0.5})
     g = HeapGen(rng, cyclic=0.2)
     for _ in range(n):
         cells = g.heap(rng.randint(1, 7))
